@@ -258,6 +258,29 @@ impl Op {
         }
     }
 
+    /// `open(read-only); sync_all | sync_data; close` — a data sync through a
+    /// descriptor that cannot itself have written anything.
+    pub fn is_ro_sync(&self) -> bool {
+        match self {
+            Op::Handle { fl, steps, .. } => {
+                fl.read
+                    && !fl.write
+                    && !fl.append
+                    && steps.len() == 1
+                    && matches!(steps[0], Step::SyncAll | Step::SyncData)
+            }
+            _ => false,
+        }
+    }
+
+    /// Operations that can be carried by an io_uring SQE.
+    pub fn uring_capable(&self) -> bool {
+        matches!(
+            self,
+            Op::WriteAt { .. } | Op::ReadAt { .. } | Op::SyncAll { .. } | Op::SyncData { .. }
+        ) || self.is_ro_sync()
+    }
+
     /// Is this a pure observation (no effect on a correct tree)?
     pub fn is_sync(&self) -> bool {
         matches!(
